@@ -190,7 +190,8 @@ class Walker:
     """Symbolic walker over one function."""
 
     def __init__(self, func=None, loop_mode='once', inline=None, global_lookup=None,
-                 rel=None, assign_events=True, attr_as_atom=True):
+                 rel=None, assign_events=True, attr_as_atom=True, solve_eq=True):
+        self.solve_eq = solve_eq
         self.func = func
         self.loop_mode = loop_mode        # 'skip' | 'once'
         self.inline = inline or {}        # callee text -> FuncInfo
@@ -325,7 +326,7 @@ class Walker:
                 c = idx.constval()
                 if c.denominator == 1 and -len(base) <= c < len(base):
                     return base[int(c)]
-            return Rat.atom('%s[%s]' % (self.base_text(base), self.canon(idx) if not isinstance(idx, str) else idx))
+            return Rat.atom('%s[%s]' % (self.base_text(base), self.idx_text(idx)))
         if isinstance(n, ast.Call):
             return self.call(n, st)
         if isinstance(n, ast.JoinedStr):
@@ -369,9 +370,18 @@ class Walker:
             stp = (':' + self.canon(self.ex(s.step, st))) if s.step is not None else ''
             return '%s:%s%s' % (lo, hi, stp)
         if isinstance(s, ast.Tuple):
-            return ', '.join(self.canon(self.index(e, st)) if not isinstance(e, ast.Slice) else self.index(e, st)
-                             for e in s.elts)
+            if any(isinstance(e, ast.Slice) for e in s.elts):
+                return ', '.join(self.canon(self.index(e, st)) if not isinstance(e, ast.Slice) else self.index(e, st)
+                                 for e in s.elts)
+            return tuple(self.ex(e, st) for e in s.elts)
         return self.ex(s, st)
+
+    def idx_text(self, idx):
+        if isinstance(idx, str):
+            return idx
+        if isinstance(idx, tuple):
+            return ', '.join(self.canon(x) for x in idx)
+        return self.canon(idx)
 
     def sqrt(self, a):
         if isinstance(a, Rat):
@@ -869,7 +879,7 @@ class Walker:
             if cj.kind == 'cmp' and cj.op == '==' and isinstance(cj.a, Rat) and isinstance(cj.b, Rat) \
                     and not (cj.a.single_atom() and cj.b.isconst()) and not (cj.b.single_atom() and cj.a.isconst()):
                 d = cj.a - cj.b
-                if d.ispoly():
+                if d.ispoly() and self.solve_eq:
                     for t in sorted(d.n.atoms()):
                         if d.n.degree_in(t) == 1:
                             co = d.n.coeff(t, 1)
